@@ -1531,6 +1531,12 @@ where
             return;
         };
 
+        // Only gossipsub peers take part in meshes.
+        if !connected_peer.kind.is_gossipsub() {
+            tracing::debug!(peer=%peer_id, "GRAFT: ignoring request from non-gossipsub peer");
+            return;
+        }
+
         // For each topic, if a peer has grafted us, then we necessarily must be in their mesh
         // and they must be subscribed to the topic. Ensure we have recorded the mapping.
         for topic in &topics {
